@@ -814,7 +814,14 @@ pub fn run_case(prop: &str, case: &Case, ctx: &mut CaseCtx) -> Result<(), Violat
                 let unknown_channel: String = (0..n_ch).map(remote_chan_id).find(|r| step_no % 2 == 0 && !(0..n_ch).any(|l| chan_id(l) == *r)).unwrap_or_else(|| "channel-77".to_string());
                 let tmsg = TransferMsg { channel: if ch_exists { chan_id(chx) } else { unknown_channel }, remote_address: remote.clone(), timeout: timeout.map(|t| t as u64), memo: memo.clone() };
                 let r = if is_native {
-                    try_exec(&mut w.app, &w.users[by].clone(), &w.ics20.clone(), &ExecuteMsg::Transfer(tmsg), &[Coin::new(amount, w.natives[tok].clone())])
+                    // (now and then an empty coin of another denomination is listed in front of the payment: one
+                    // payment, of the denomination that carries the amount - or a refusal)
+                    let mut funds = vec![Coin::new(amount, w.natives[tok].clone())];
+                    if step_no % 9 == 5 {
+                        funds.insert(0, Coin::new(0u128, w.natives[(tok + 1) % N_NATIVE].clone()));
+                        ctx.count("transfer_with_an_empty_coin_in_front");
+                    }
+                    try_exec(&mut w.app, &w.users[by].clone(), &w.ics20.clone(), &ExecuteMsg::Transfer(tmsg), &funds)
                 } else {
                     let from = by_gov.clone().unwrap_or_else(|| w.users[by].clone());
                     if by_gov.is_some() {
